@@ -71,6 +71,9 @@ def check_sums(rep, spec):
 # ------------------------------------------------------------------------- levels 3..9
 def collinear_xyz(spec):
     o, u = np.array(spec["origin"], dtype=np.float64), np.array(spec["axis"], dtype=np.float64)
+    if "lattice" in spec:  # exactly representable positions: origin + m_i * w / den with an integer vector w and integers m_i
+        w, den = np.array(spec["lattice"]["w"], dtype=np.float64), float(spec["lattice"]["den"])
+        return np.array([o + (m * w) / den for m in spec["lattice"]["m"]])
     return np.array([o + t * u for t in spec["t"]])
 
 
@@ -197,6 +200,42 @@ def two_arm_cases(tier, rng):
         k += 1
 
 
+# ------------------------------------------------------------ far from the origin, short compartments
+# Origins 4e4 .. 1e6 away from the coordinate origin (every coordinate a multiple of 1/16 below 2^20: exact in float32), lines along
+# integer vectors w (axis-parallel in both directions, in a coordinate plane, oblique with three non-zero components), nodes at
+# origin + m_i * w / 16.  Compartments are SHORT (0.2 .. 3 units, i.e. 1e-6 .. 1e-4 of the coordinates), radii taper both ways.
+FAR_ORIGINS = [(983040.0, 0.0, 0.0), (0.0, 0.0, -524288.0), (65536.0, 131072.0, -262144.0), (-999424.0, 786432.0, 589824.0), (40000.0, -40000.0, 40000.0)]
+LATTICE_DIRS = [(1, 0, 0), (0, 0, -1), (0, -1, 0), (3, 4, 0), (2, -3, 6), (1, 2, 2), (-1, -2, 2)]
+DYADIC_RADII = [0.125, 0.1875, 0.25, 0.375, 0.5, 0.75, 1.0, 1.5]
+
+
+def far_cases(tier, rng):
+    den = 16
+    per = 2 if tier == "quick" else 8
+    for oi, o in enumerate(FAR_ORIGINS):
+        for wi, w in enumerate(LATTICE_DIRS):
+            unit = math.sqrt(sum(c * c for c in w)) / den  # distance between neighbouring lattice points of the line
+            for j in range(per):
+                two_arm = (j % 2 == 1)
+                n_right, n_left = rng.randint(1, 3), (rng.randint(1, 2) if two_arm else 0)
+                pid, m, r = [-1], [0], [None]
+                for sign, count in ((1, n_right), (-1, n_left)):
+                    prev = 0
+                    for _ in range(count):
+                        steps = max(1, round(rng.choice([0.25, 0.5, 0.75, 1.0, 1.5, 2.0, 3.0]) / unit))
+                        pid.append(prev)
+                        m.append(m[prev] + sign * steps)
+                        r.append(None)
+                        prev = len(pid) - 1
+                t = [mi * unit for mi in m]
+                for i in range(len(pid)):  # radii: dyadic, at most the length of every compartment that ends here
+                    lim = min([abs(t[i] - t[pid[i]])] * (pid[i] >= 0) + [abs(t[c] - t[i]) for c in range(len(pid)) if pid[c] == i])
+                    ok = [x for x in DYADIC_RADII if x <= lim] or [lim / 2]
+                    r[i] = rng.choice(ok[-3:])
+                u = [c / (unit * den) for c in w]
+                yield dict(kind="collinear", pid=pid, t=t, r=r, origin=list(o), axis=u, lattice=dict(w=list(w), den=den, m=m))
+
+
 # ------------------------------------------------------------------------------- driver
 def small_tree_cases(tier, rng):
     nmax = 5 if tier == "quick" else 6
@@ -240,6 +279,15 @@ def run(ctx):
                 check_collinear(rep, far)
                 for level in far["levels"]:
                     ctx.case("chain-far", dict(pid=far["pid"], t=far["t"], r=far["r"], pose=[far["origin"], far["axis"]], level=level), nontrivial=overlapping_neighbours(far))
+    for spec in far_cases(ctx.tier, rng):
+        if not admissible(spec["pid"], spec["t"], spec["r"]):
+            skipped += 1
+            continue
+        spec["levels"] = [3, 4] if sum(1 for p in spec["pid"] if p == 0) > 1 else [3, 5, 9]  # no Monte-Carlo term for a chain
+        check_collinear(rep, spec)
+        for level in spec["levels"]:
+            ctx.case("far-short", dict(pid=spec["pid"], m=spec["lattice"]["m"], w=spec["lattice"]["w"], r=spec["r"], origin=spec["origin"], level=level),
+                     nontrivial=len(set(spec["r"])) > 1)
     mc_budget = 2 if ctx.tier == "quick" else 12  # every two-armed root at level >= 5 costs a 1e6-sample Monte-Carlo term (exactly 0 here)
     for spec in two_arm_cases(ctx.tier, rng):
         if not admissible(spec["pid"], spec["t"], spec["r"]):
@@ -260,7 +308,9 @@ def run(ctx):
     ctx.rule("levels 1, 2: every sorted parent table with <= %d nodes x {walk, lattice coordinates} x 2 radius patterns + seeded random trees, against plain sums; "
              "levels 3..9 and 'low'/'middle'/'high': chains of 2-6 nodes (all radii in {0.5,1,1.5}^n x spacing factors {1,1.05,1.5,2,2.5} x max(r) for n=2, sampled for n>=3, "
              "plus continuous random ones) and roots with two opposite arms, in 16 poses, restricted to the property's precondition, against quadrature of the union profile. "
-             "Non-trivial = at least one pair of neighbouring spheres overlaps (d < r1 + r2); for levels 1, 2: at least one edge" % (5 if ctx.tier == "quick" else 6), exhaustive=False)
+             "Far from the origin: chains and two-armed roots with short compartments (0.2..3 units) on exactly representable lattice lines (7 directions: axis-parallel both ways, "
+             "in a coordinate plane, oblique) through 5 origins 4e4..1e6 away, tapering both ways. "
+             "Non-trivial = at least one pair of neighbouring spheres overlaps (d < r1 + r2); far family: radii differ; for levels 1, 2: at least one edge" % (5 if ctx.tier == "quick" else 6), exhaustive=False)
 
 
 def replay(spec):
